@@ -117,12 +117,7 @@ ProcNode(X, T, M, j, via) ==
        IN IF n.a # "" THEN bad("annotation")
           ELSE IF Name1(n) = "" THEN bad("noparam")
           ELSE IF m = 0 THEN bad("nomacro")
-          ELSE IF \E x \in 1..Len(EnumKids(T, m)) :
-                       \/ \E y \in 1..Len(X.enumsAtPaste) : Name1(T.nodes[X.enumsAtPaste[y].node]) = Name1(T.nodes[EnumKids(T, m)[x]])
-                       \/ \E y \in 1..(x - 1) : Name1(T.nodes[EnumKids(T, m)[y]]) = Name1(T.nodes[EnumKids(T, m)[x]])
-               THEN bad("dupname")    \* the ENUM rules of a macro body are registered at every paste
-          ELSE LET X1 == [X EXCEPT !.enumsAtPaste = @ \o [x \in 1..Len(EnumKids(T, m)) |-> [node |-> EnumKids(T, m)[x], via |-> top]]]
-                   X2 == ProcList(X1, T, M, Kids(T, m), 1, top)
+          ELSE LET X2 == ProcList(X, T, M, Kids(T, m), 1, top)    \* ENUM rules are collected afterwards, from the expanded tree, in document order
                IN IF X2.res # "ok" THEN [X2 EXCEPT !.errTok = top] ELSE X2
   ELSE LET X1 == CopyInto(X, T, j, via) IN
        IF X1.res # "ok" THEN X1
